@@ -2,9 +2,9 @@
 the cycle report, for every graph, with termination; (2) BOUNDED stand-in (not a proof): run-time-checked contracts on the real
 ModuleGraph operations.
 
-ModuleGraph::get_node / get_mut_node / depends_on / deep_depends_on / add_node_if_none / inc_ref / remove / rename_path are under contract in a second Verus unit (units/C21/graph.py).
+ModuleGraph::get_node / get_mut_node / parents / depends_on / deep_depends_on / ancestors / add_node_if_none / inc_ref / remove / rename_path are under contract in a second Verus unit (units/C21/graph.py).
 No deductive back end reaches the others (Kani does not terminate on hashbrown's probe loops - a 2-node tsort ran 25 min without
-result; Verus rejects what ancestors_/children/sorted consist of: sets of references threaded through a recursion, iterator filter chains, collect into a Dict). Their contracts are therefore executable predicates (replay/src/c21.rs) over an abstract view
+result; Verus rejects what children/sorted consist of: iterator filter chains, collect into a Dict). Their contracts are therefore executable predicates (replay/src/c21.rs) over an abstract view
 (vertex set, edge set) and are checked after EVERY operation of EVERY operation sequence up to a stated length."""
 import json
 import os
@@ -282,7 +282,7 @@ def run(run, replay_path=None, replay=None):
     # the functions under (run-time-checked, bounded) contract must still be there
     g = Source(run.repo, 'crates/erg_compiler/module/graph.rs')
     fns = []
-    for f in ('children', 'parents', 'ancestors', 'sorted'):
+    for f in ('children', 'sorted'):
         d = g.fn(f, impl=r'ModuleGraph').describe()
         d["unit_label"] = "ModuleGraph::%s (BOUNDED run-time-checked contract only)" % f
         fns.append(d)
@@ -301,7 +301,7 @@ def run(run, replay_path=None, replay=None):
         fs = r.get("findings") or []
         return dict(fs[0], found=True) if fs else {"found": False, "note": r.get("note")}
     _graph.run_graph(run, graph_finder)
-    run.bounded_note = "ModuleGraph::get_node, get_mut_node, depends_on, add_node_if_none, deep_depends_on, inc_ref, remove and rename_path are under contract (Verus); sort's index rebuild and the other queries are covered only by the bounded run-time-checked contract (coverage.bounded_contract_on_module_graph_operations): all operation sequences up to the stated length over the stated number of paths; not counted in the obligations"
+    run.bounded_note = "ModuleGraph::get_node, get_mut_node, parents, depends_on, deep_depends_on, ancestors, add_node_if_none, inc_ref, remove and rename_path are under contract (Verus); children, sort's index rebuild and the other queries are covered only by the bounded run-time-checked contract (coverage.bounded_contract_on_module_graph_operations): all operation sequences up to the stated length over the stated number of paths; not counted in the obligations"
     run.assumptions.append("ModuleGraph::get_node / get_mut_node / depends_on / add_node_if_none / inc_ref / remove / rename_path (proved): deep_depends_on(_) is unfolded by rule R11a (Option::map/unwrap_or, short-circuit ||, Iterator::any -> match, early return, indexed loop over the set's elements) and its visited set holds ids instead of references; paths are u64 ids (R5: NormalizedPathBuf is used only through Eq + Hash + Clone); the hash map `index` and the hash sets are abstract finite maps / sets with assumed contracts (get, insert, remove; values_mut() as a loop over the keys with load/store, rule R11m; Set::retain(|p| p != path) on one node as an assumed wrapper); Path::is_dir is an arbitrary predicate and the claim is for non-directory paths (a directory path is ignored, or panics in debug builds, by design); fewer than usize::MAX nodes.")
-    run.assumptions.append("The other ModuleGraph operations and queries ( ancestors, children, the index rebuilt by sorted): BOUNDED run-time-checked contracts only (exhaustive up to the stated sequence length and number of paths), not a deductive proof. Two op sets: the usual one registers an import target before inc_ref; the 'raw' one also calls inc_ref with an unregistered target (sort may then answer KeyNotFound, which is accepted). Rename targets are fresh paths.")
+    run.assumptions.append("The other ModuleGraph operations and queries (children, the index rebuilt by sorted): BOUNDED run-time-checked contracts only (exhaustive up to the stated sequence length and number of paths), not a deductive proof. Two op sets: the usual one registers an import target before inc_ref; the 'raw' one also calls inc_ref with an unregistered target (sort may then answer KeyNotFound, which is accepted). Rename targets are fresh paths.")
     run.assumptions.append("tsort: hash set (erg_common::set::Set) seen as a mathematical set with the contracts of new/insert/contains/iter assumed; Iterator::find, slice::contains and reorder_by_key (slice::sort_by_key with Iterator::position as key) carry assumed std contracts; T := u64, U := () (rule R5; the code uses T only through Eq + Hash + Clone + Debug). ModuleGraph::sorted rebuilding `index` from the sorted vector (iterator chain into a Dict) is covered by the bounded contract only.")
